@@ -60,7 +60,17 @@ func (fr *Frame) specEnv(st *State) *SpecEnv {
 		}
 	}
 	if len(fr.loops) > 0 {
-		env.loopI = fr.loops[len(fr.loops)-1].i
+		lc := fr.loops[len(fr.loops)-1]
+		env.loopI = lc.i
+		// atHead()/atEntry() inside a loop body (at-clauses): snapshots of the innermost loop
+		if lc.head != nil && st != lc.head && !fr.inSnapEnv {
+			fr.inSnapEnv = true
+			env.head = fr.specEnv(lc.head)
+			if lc.entry != nil {
+				env.entry = fr.specEnv(lc.entry)
+			}
+			fr.inSnapEnv = false
+		}
 	}
 	return env
 }
@@ -331,6 +341,28 @@ func (fr *Frame) contractCall(st *State, c *ast.CallExpr, fn *types.Func, ct *Co
 	}
 	if ct.Counts != "" {
 		x.countInc(st, ct.Counts)
+	}
+	// ghost call counters the callee's body may advance (beyond the one its contract counts)
+	if !ct.Trusted {
+		if decl, dpkg := x.eng.funcDecl(fn); decl != nil && decl.Body != nil {
+			sub := &Frame{x: x, pkg: dpkg, info: dpkg.TypesInfo, depth: 1, loopOrd: map[string]int{}, atOrd: map[string]int{}, closureOrd: map[string]int{}}
+			sm := sub.collectMods([]ast.Node{decl.Body}, nil)
+			var ks []string
+			for k := range sm.counts {
+				ks = append(ks, k)
+			}
+			sort.Strings(ks)
+			for _, k := range ks {
+				if k == ct.Counts {
+					continue
+				}
+				if cur, ok := st.ghost["count:"+k]; ok {
+					n := x.u.fresh("cnt", "Int")
+					x.u.gfact(st.pc, "(>= "+n+" "+cur.T+")")
+					st.ghost["count:"+k] = Val{T: n, S: "Int"}
+				}
+			}
+		}
 	}
 	env.st = st
 	for _, e := range ct.Ensures {
